@@ -80,6 +80,10 @@ def load_units(config='cmake', extra_defines=()):
         dst = os.path.join(scratch(), '%s.%s.%d.json' % (u, config, len(_unit_cache)))
         export(src, CONFIGS[config] + list(extra_defines), dst, include=REPO)
         out[u] = Unit(dst, label='%s[%s]' % (u, config))
+        if not os.environ.get('CJSA_NO_FOLD'):
+            # anchors that were renamed or whose body moved into a helper of their own are found again (cjsa/specialize.py)
+            from .specialize import fold_delegations
+            out[u] = fold_delegations(out[u], u)
     _unit_cache[key] = out
     return out
 
